@@ -161,8 +161,9 @@ def rebuild_state(h, stats=None):
     try:
         cand = SpaceGroup(sg0.international_tables_number, choice=sg0.choice) if sg0.choice else SpaceGroup(sg0.international_tables_number)
         same_ops = [int(s.integer_code) for s in cand.symmetry_operations] == [int(s.integer_code) for s in sg0.symmetry_operations]
-        same_meta = all(getattr(cand, k, None) == getattr(sg0, k, None) for k in ("symbol", "full_symbol", "choice", "centering", "centrosymmetric"))
-        if same_ops and same_meta:
+        # the group IS its operation list; symbol, centering, point group ... are
+        # data derived from it and come from the constructor, not from the handle
+        if same_ops:
             sg = cand
     except Exception:  # noqa: BLE001
         sg = None
